@@ -289,10 +289,16 @@ inductive Arg where
   | dflt              -- rdf.DefaultBlankNodeFactory (factory positions only)
   deriving DecidableEq, Repr, Inhabited
 
+/-- a label argument: a literal, or the label returned by operation k -/
+inductive LArg where
+  | lit (l : Bytes)
+  | res (k : Nat)
+  deriving DecidableEq, Repr, Inhabited
+
 inductive ROp where
   | newFactory | newStringFactory
   | newBlankNode (f : Arg)
-  | newStringBlankNode (f : Arg) (label : Bytes)
+  | newStringBlankNode (f : Arg) (label : LArg)
   | newInt64Provider (format : Bytes)
   | newUUIDProvider (format : Bytes)
   | getStringProvider (f : Arg) (fallback : Arg)
@@ -320,6 +326,10 @@ def argProv (outs : List Out) : Arg → Option ProvRef
   | .res k => match outs[k]? with | some (.prov p) => some p | _ => none
   | _ => none
 
+def argLabel (outs : List Out) : LArg → Option Bytes
+  | .lit l => some l
+  | .res k => match outs[k]? with | some (.label l) => some l | _ => none
+
 def argMapper (outs : List Out) : Arg → Option Nat
   | .res k => match outs[k]? with | some (.mapper m) => some m | _ => none
   | _ => none
@@ -329,7 +339,10 @@ def resolve (outs : List Out) : ROp → Option Op
   | .newFactory => some .newFactory
   | .newStringFactory => some .newStringFactory
   | .newBlankNode f => (argFactory outs f).map .newBlankNode
-  | .newStringBlankNode f l => (argStrf outs f).map (.newStringBlankNode · l)
+  | .newStringBlankNode f l => do
+      let j ← argStrf outs f
+      let l ← argLabel outs l
+      pure (.newStringBlankNode j l)
   | .newInt64Provider fmt => some (.newInt64Provider fmt)
   | .newUUIDProvider fmt => some (.newUUIDProvider fmt)
   | .getStringProvider f fb => do
